@@ -26,6 +26,11 @@ CLAIMED = {
          "All histories over a 14-20 letter alphabet (updates of four points in three classes incl. two binaries in different classes, READ by class / count-limited / by type / class 0, right and wrong solicited and unsolicited confirms, confirm timeout, DISABLE/ENABLE_UNSOLICITED, another request, reconnect) to depth 4 (quick) / 5-7 (thorough), per-type event buffers 1/2/5, absolute-time and CTO event variations, unsolicited off/on with 0/1 retries. The ledger holds every event the database API reported; after every event it checks: releases only for rows of the response that a matching, still-awaited confirm covers (R1/R2), every such row released (R2c), oldest-first and no skipped older row (R3), transmitted objects equal a recorded event (R4), nothing transmitted after release/discard except byte-identical re-sends (R1b/R6), end_confirm counts (R7); after each history an ideal master drains the buffer and every held event must be delivered (R5).",
          "Trusted: engine codecs, DESIGN 2.3. Time advances only in whole confirm timeouts. Values/times are unique per update so an object identifies its row.",
          "DESIGN.md §5 C03", True),
+ "C13": ("model_checking",
+         "bounded-exhaustive exploration of all event histories of the real outstation task; every first transmission of a response is compared bit by bit with an indication model derived from the event ledger",
+         "C03's driver and ledger plus an IIN model: class-k available iff the ledger holds a class-k row not part of a response still awaiting confirmation; overflow from a reported discard until a valid confirmation leaves every type below capacity; restart until WRITE g80v1[7]=0 is processed (across reconnects); broadcast from receipt until reported (mandatory: until a valid confirm after it was reported); need-time / local-control / device-trouble / config-corrupt mirror the application mock. Alphabet of 19-24 events incl. broadcasts of the three confirm modes, restart-bit writes, reconnect, application flips; depth 4 quick, 5-7 thorough; buffer sizes 1/2, retries 0/1. Effects of requests are applied at the observation-order position of the corresponding callback so that requests retained across a confirm wait are modelled in the order the outstation processes them.",
+         "Trusted: engine codecs, DESIGN 2.3, the global observation counter shared by pipe writes and callbacks. Lenient ('either') zones: class bits of the response to the DISABLE_UNSOLICITED that cancels a series; a mandatory broadcast after a solicited confirm that arrives during / for a response sent during an unsolicited wait. Updates are placed at quiescent points only (H6 not built).",
+         "DESIGN.md §5 C13", True),
 }
 
 NOT_YET = {
@@ -37,7 +42,6 @@ NOT_YET = {
  "C09": "designed in DESIGN §5 C09; check not built yet",
  "C10": "designed in DESIGN §5 C10; check not built yet",
  "C11": "designed in DESIGN §5 C11; check not built yet",
- "C13": "designed in DESIGN §5 C13; check not built yet",
  "C14": "designed in DESIGN §5 C14; check not built yet",
  "C15": "designed in DESIGN §5 C15; check not built yet",
  "C16": "designed in DESIGN §5 C16; check not built yet",
